@@ -325,6 +325,10 @@ impl<'a> IExec<'a> {
                                 if !native && self.toks[t].locked - self.toks[t].released == a && a > 0 {
                                     ctx.count("probe.custody_exactly_drained");
                                 }
+                                if to == Some(BLOCKED_USER) && self.toks[t].kind == TokKind::Probe && !native {
+                                    ctx.count("F9.token_refuses_receiver");
+                                    reasons.push("token-refuses-this-receiver");
+                                }
                                 if let Some(to) = to {
                                     if self.bal(t, to).checked_add(a).is_none() || self.toks[t].supply.checked_add(a).is_none() {
                                         either = true;
@@ -388,7 +392,7 @@ impl<'a> IExec<'a> {
             let tags: &[&'static str] = match reasons[0] {
                 "token-id-already-registered" | "unrepresentable-metadata" | "undecodable-minter" => &["C04", "C11"],
                 "undecodable-or-unsupported-payload" | "not-a-receive-from-hub-wrapper" => &["C04", "C10"],
-                "insufficient-custody" | "unknown-token" | "undecodable-recipient" => &["C04", "C05"],
+                "insufficient-custody" | "unknown-token" | "undecodable-recipient" | "token-refuses-this-receiver" => &["C04", "C05"],
                 _ => &["C04"],
             };
             match ctx.expect(res.out.is_err(), tags, &cls, || format!("delivery that must be refused ({}) was executed", label)) {
